@@ -405,6 +405,23 @@ Theorem C18_add_variable_alias_name_refuted :
     alias_getitem am (KName "A") (fst (alias_step am o s)) = alias_getitem am (KName "X") (fst (alias_step am o s)).
 Proof. exact add_variable_alias_name_refuted. Qed.
 
+(* the same door through add_attribute (not wrapped by the mixin either, accepted under strict=True as well): an entry is stored
+   under the ALIAS name - what m.A then reads (99; Python finds the instance attribute first) - while m['A'] is X, and m.A = 5
+   overwrites X while the entry A stays 99 *)
+Theorem C18_add_attribute_alias_name_refuted :
+  exists am s o,
+    WFam am /\ NoDup (akeys (amap am)) /\ Inv s /\ In "A" (akeys (amap am)) /\ o = AddAttribute "A" (OScalar (PInt 99)) /\
+    snd (alias_step am o s) = Ret tt /\
+    (let s1 := fst (alias_step am o s) in
+     assoc "A" (adict s1) = Some (OScalar (PInt 99)) /\
+     alias_getitem am (KName "A") s1 = alias_getitem am (KName "X") s1 /\
+     let s2 := fst (alias_step am (SetAttr "A" (OScalar (PInt 5)) None) s1) in
+     snd (alias_step am (SetAttr "A" (OScalar (PInt 5)) None) s1) = Ret tt /\
+     assoc "A" (adict s2) = Some (OScalar (PInt 99)) /\
+     alias_getitem am (KName "X") s2 = Ret [PFlt (FHalf 10); PFlt (FHalf 10); PFlt (FHalf 10)]%Z /\
+     alias_getitem am (KName "X") s2 <> alias_getitem am (KName "X") s1).
+Proof. exact add_attribute_alias_name_refuted. Qed.
+
 Print Assumptions C18_shorten_acyclic.
 Print Assumptions C18_shorten_cyclic.
 Print Assumptions C18_shorten_raises_iff.
@@ -454,6 +471,7 @@ Print Assumptions C18_alias_named_like_variable_rejected.
 Print Assumptions C18_alias_named_like_attribute_rejected.
 Print Assumptions C18_export_only_renames_constructed.
 Print Assumptions C18_add_variable_alias_name_refuted.
+Print Assumptions C18_add_attribute_alias_name_refuted.
 Print Assumptions clashing_aliases_rejected.
 Print Assumptions C18_export_total.
 Print Assumptions C18_export_rename_only.
